@@ -330,6 +330,7 @@ def run(pid, tier, seed):
         common.build_harness(["evtx_dump"])
         ev_src = os.path.join(common.REPO, c10.EVTX)
         _sh.copyfile(ev_src, os.path.join(od, "k.evtx"))
+        os.utime(os.path.join(od, "k.evtx"), (315532800, 315532800))      # (a file time older than every record)
         ev = c10.dump(ev_src)
         ev_emit = sorted(ev, key=lambda x: ((x["secs"], x["nanos"]), x["idx"]))
         inv = [i for i in range(len(ev) - 1) if (ev[i]["secs"], ev[i]["nanos"]) > (ev[i + 1]["secs"], ev[i + 1]["nanos"])]
@@ -348,10 +349,12 @@ def run(pid, tier, seed):
         nc = [(gen.BASE + 905, 0), (gen.BASE + 1805, 0), (gen.BASE + 5, 0), (gen.BASE + 1205, 5000), (gen.BASE + 2, 7000), (gen.BASE + 905, 0)]
         with open(os.path.join(od, "nc.wtmp"), "wb") as f:
             f.write(b"".join(gen.utmp_record(7, 2000 + i, b"pts/%d" % i, b"n%d" % i, b"v%d" % i, b"g%d" % i, s_, n_ // 1000) for i, (s_, n_) in enumerate(nc)))
+        os.utime(os.path.join(od, "nc.wtmp"), (315532800, 315532800))
         for t in sorted(set(nc)):
             ojobs += [("nc.wtmp", None, t), ("nc.wtmp", t, None), ("nc.wtmp", t, t), ("nc.wtmp", (t[0], t[1] + 1000), None)]
         jd, jplain, jtruth = c09.prepare(sc, "u22x3")
         _sh.copyfile(jplain, os.path.join(od, "u.journal"))
+        os.utime(os.path.join(od, "u.journal"), (315532800, 315532800))
         for us in sorted(set(jtruth)):
             t = (us // 10**6, (us % 10**6) * 1000)
             ojobs += [("u.journal", None, t), ("u.journal", t, None), ("u.journal", t, t), ("u.journal", (t[0], t[1] + 1000), None)]
